@@ -93,3 +93,63 @@ func init() {
 		})
 	}
 }
+
+func init() {
+	debugFuncs["races"] = func(p *Prog) {
+		rv, _ := FindRendezvous(p)
+		e := NewRaceEngine(p, rv)
+		for _, r := range e.Roles {
+			fmt.Printf("ROLE %s multi=%v join=%v scoped=%v tag=%s reach=%d part=%d\n", r.ID, r.Multi, r.Join != nil, r.Scoped, roleTag(r), len(r.Reach), len(r.PartTy))
+		}
+		cs := e.Conflicts(nil)
+		fmt.Println(len(cs), "conflicts")
+		byPair := map[string]int{}
+		for _, c := range cs {
+			a, b := c.A.Role.ID, c.B.Role.ID
+			if a > b {
+				a, b = b, a
+			}
+			byPair[a+"  <->  "+b]++
+		}
+		var ps []string
+		for k, n := range byPair {
+			ps = append(ps, fmt.Sprintf("%4d %s", n, k))
+		}
+		sort.Strings(ps)
+		for _, l := range ps {
+			fmt.Println("PAIR", l)
+		}
+		byKey := map[string]int{}
+		for _, c := range cs {
+			byKey[c.Key.String()]++
+		}
+		var ks []string
+		for k := range byKey {
+			ks = append(ks, k)
+		}
+		sort.Strings(ks)
+		for _, k := range ks {
+			fmt.Printf("  %-55s %d\n", k, byKey[k])
+		}
+		if os.Getenv("DLINT_KEY") != "" {
+			for _, c := range cs {
+				if c.Key.String() == os.Getenv("DLINT_KEY") {
+					fmt.Printf("W %s / %s @%s locks=%v\n   x %s / %s @%s write=%v locks=%v\n", c.A.Role.ID, FuncName(c.A.Fn), p.InstrPos(c.A.Instr), c.A.Locks, c.B.Role.ID, FuncName(c.B.Fn), p.InstrPos(c.B.Instr), c.B.Write, c.B.Locks)
+				}
+			}
+		}
+	}
+}
+
+func init() {
+	debugFuncs["path"] = func(p *Prog) {
+		from := p.Func("", os.Getenv("DLINT_RECV"), os.Getenv("DLINT_FROM"))
+		to := os.Getenv("DLINT_TO")
+		if from == nil {
+			fmt.Println("no from")
+			return
+		}
+		ok, path := p.Reaches(from, func(f *ssa.Function) bool { return strings.Contains(FuncName(f), to) }, 12)
+		fmt.Println(ok, pathString(path))
+	}
+}
